@@ -247,6 +247,16 @@ def run_all(shard, rec, B):
             for comp in ("none", "circuit"):
                 circ, _ = CC.configure(B, "CliffordCircuit", prog, N, "built", comp)
                 inplace.append(("circuit.forward." + comp, B.State(tg.copy(), tp.copy(), r), [circ], lambda o, circ=circ: circ.forward(o)))
+        if B.name == "np":
+            for nq in (1, 2):
+                if nq <= N:
+                    rg = B.circuit.CliffordGate(*range(nq))
+                    for how in ("forward", "backward", "forward"):
+                        ok, _ = rec.attempt("random_gate", [nq, how], lambda: getattr(rg, how)(B.PauliList(og.copy(), op.copy())))
+                    rec.check("inplace.arg.random_gate", rg.generator is None and rg.forward_map is None and rg.backward_map is None, {"n": nq, "N": N}, True,
+                              expected="a gate without generator and maps stays a random gate", observed=[rg.forward_map is not None, rg.backward_map is not None])
+                    rc = rg.copy()
+                    rec.check("copy.eq.random_gate", rc.generator is None and rc.forward_map is None and rc.backward_map is None and rc.qubits == rg.qubits, {"n": nq}, True)
         for name, recv, args, call in inplace:
             sa0 = [gate_def_snapshot(a) for a in args]
             r0 = snapshot(recv)
